@@ -57,7 +57,7 @@ func (tcFamily) Corpus(string) []*hc.Case {
 func (tcFamily) Gen(r *rand.Rand, i int, tier string) *hc.Case {
 	p := tcParams{
 		Sleep:  hc.Pick(r, int64(0), 1, 10, 10, 100, 1000, int64(time.Second), -5),
-		Budget: hc.Pick(r, int64(-1), 0, 1, 1, 1, 2, 2, 3, 5),
+		Budget: hc.Pick(r, int64(-1), 0, 1, 1, 1, 2, 2, 3, 5, -1<<63, -1<<63+1, 1<<63-1), // every budget: the ends of the int64 range too
 	}
 	n := 6 + r.Intn(30)
 	var ops []tcOp
